@@ -110,22 +110,26 @@ def law_case(case, out, sound=True, exact=True):
     except Exception as e:
         out.append(dict(kind="localized-raised:%s" % d["kind"], input=case, detail=repr(e)[:200]))
         return 1
-    Ls = [None]
+    def ev(sp, s):
+        st = hard.Stub(s)
+        return sp.evaluate(st)
+
+    # the law is evaluated on the localized object as returned (the property's observation point) and,
+    # afterwards, on its re-initialisation on a local problem (what the solver evaluates; note that
+    # initialized_on_problem may modify the object in place, hence the order)
+    direct = None
     if L is not None:
-        # the law is evaluated both on the localized object as returned (the property's observation
-        # point) and on its re-initialisation on a local problem (what the solver evaluates)
-        Ls = [L]
         try:
-            L2 = L.initialized_on_problem(hard.Stub(seq), role=role)
-            if L2 is not L:
-                Ls.append(L2)
+            direct = (ev(L, seq), ev(L, t))
+        except Exception as e:
+            out.append(dict(kind="localized-evaluate-raised:%s" % d["kind"], input=case, detail=repr(e)[:200]))
+            return 1
+        try:
+            L = L.initialized_on_problem(hard.Stub(seq), role=role)
         except Exception as e:
             out.append(dict(kind="localized-init-raised:%s" % d["kind"], input=case, detail=repr(e)[:200]))
             return 1
 
-    def ev(sp, s):
-        st = hard.Stub(s)
-        return sp.evaluate(st)
     try:
         g0, g1 = ev(spec, seq), ev(spec, t)
     except Exception as e:
@@ -136,12 +140,12 @@ def law_case(case, out, sound=True, exact=True):
             out.append(dict(kind="localized-none-but-score-changed:%s" % d["kind"], input=case,
                             detail="%r -> %r" % (float(g0.score), float(g1.score))))
         return 1
-    for L in Ls:
-        try:
-            l0, l1 = ev(L, seq), ev(L, t)
-        except Exception as e:
-            out.append(dict(kind="localized-evaluate-raised:%s" % d["kind"], input=case, detail=repr(e)[:200]))
-            return 1
+    try:
+        pairs = [direct, (ev(L, seq), ev(L, t))]
+    except Exception as e:
+        out.append(dict(kind="localized-evaluate-raised:%s" % d["kind"], input=case, detail=repr(e)[:200]))
+        return 1
+    for l0, l1 in pairs:
         if sound and g0.passes and l1.passes and not g1.passes:
             out.append(dict(kind="local-pass-global-fail:%s" % d["kind"], input=case,
                             detail="global %r -> %r, localized %r -> %r" % (float(g0.score), float(g1.score), float(l0.score), float(l1.score))))
